@@ -31,6 +31,11 @@ def build_demo(copy, demo, out, extra):
     for h in os.listdir(os.path.dirname(demo)):       # helper headers delivered next to the demonstration
         if h.endswith(".h"): shutil.copy(os.path.join(os.path.dirname(demo), h), os.path.join(copy, "seed", h))
     inc = "-I%s/include -I%s/src -I%s/src/cpp" % (copy, copy, copy)
+    if "-fsanitize=thread" in extra:
+        # a race detector needs the library instrumented as well: compile the sources the demonstration uses with it
+        r = sh("gcc -std=c99 -D_DEFAULT_SOURCE -g -O1 -w -fsanitize=thread %s -c %s/src/rtosc.c -o %s.rtosc.o" % (inc, copy, out))
+        if r.returncode: return r
+        return sh("g++ -std=c++17 -g -O1 -w -fsanitize=thread %s %s %s/src/cpp/thread-link.cpp %s.rtosc.o -o %s -lpthread" % (inc, local, copy, out, out))
     libs = "%s/_build/librtosc-cpp.a %s/_build/librtosc.a" % (copy, copy)
     if demo.endswith(".c"):
         r = sh("gcc -g -O1 -w %s %s -c %s -o %s.o" % (inc, extra, local, out))
@@ -46,6 +51,7 @@ def main():
     work = tempfile.mkdtemp(prefix="rtosc-seed-", dir="/var/tmp")
     copy = os.path.join(work, "repo")
     meta = dict(seed=sid, breaks=props, needs_to_manifest=needs, ran=[], confirmed=False)
+    if extra: meta["extra_demo_flags"] = extra
     try:
         sh(["rsync", "-a", "--exclude", "_build", "--exclude", ".git", "--exclude", "seed", "/repo/", copy + "/"])
         # 1. unchanged
